@@ -5,6 +5,7 @@ From Cicada Require Import Base.Chars Gen.CalcTables Model.Calc
   Proofs.CalcClassify Proofs.CalcPratt Proofs.CalcFusion Proofs.CalcInt Proofs.CalcWf
   Proofs.CalcPrint Proofs.CalcLine Proofs.CalcFuel Proofs.CalcText.
 From Cicada Require Base.Peg Gen.CalcGrammar Model.CalcPeg Proofs.CalcPegSim.
+From Cicada Require Import Model.CalcFloat Proofs.CalcFloatProofs.
 Local Open Scope string_scope.
 
 (** The source sites the hand-written matchers / tokenizer / table were written
@@ -285,6 +286,30 @@ Example C19_nonvacuous_peg :
   CalcPegSim.of_hand (POk [PNum (s2l "1")]) = CalcPeg.GOk [PNum (s2l "1")].
 Proof. vm_compute. repeat split. eexists. reflexivity. Qed.
 
+(** (9) Round 9b. Float mode. For ANY f64 oracle [ops] (add, sub, mul, div, powf, literal
+    parse; a record of functions, nothing assumed about them): when the model of
+    run_calculator is in float mode with Pratt tree t, the float evaluator of
+    calculator::eval_float (closures evaluated inside the Pratt parser, [run_calculator_f])
+    returns exactly the post-order fold of the oracle over t. So the precedence /
+    associativity / text theorems about t carry over to float mode. *)
+Theorem C19_float_structure : forall (F : Type) (ops : fops F) (line : str) (t : tree str),
+  run_calculator line = RFloat (Ok t) ->
+  run_calculator_f ops line = FFloat (Ok (fold_float ops t)).
+Proof. exact float_structure. Qed.
+
+Theorem C19_float_structure_all : forall (F : Type) (ops : fops F) (line : str),
+  match run_calculator line with
+  | RSyntax => run_calculator_f ops line = FSyntax
+  | RFuel => run_calculator_f ops line = FFuel
+  | RInt r => run_calculator_f ops line = FInt r
+  | RFloat r => exists t, r = Ok t /\ run_calculator_f ops line = FFloat (Ok (fold_float ops t))
+  end.
+Proof. exact float_structure_all. Qed.
+
+(** every num token of the grammar has the syntax str::parse::<f64> accepts (the unwrap cannot fail) *)
+Theorem C19_float_literals : forall s t r, p_num s = Some (t, r) -> f64_syntax t = true.
+Proof. exact num_f64_syntax. Qed.
+
 (** Regression examples: the inputs of the four classes repaired by c1ba25a. *)
 Definition w_lit := s2l "99999999999999999999 + 1".
 Definition w_pow := s2l "2 ^ 64".
@@ -375,3 +400,6 @@ Print Assumptions C19_peg_is_hand_parser.
 Print Assumptions C19_peg_fuel_suffices.
 Print Assumptions C19_peg_nofuel.
 Print Assumptions C19_peg_render_parse.
+Print Assumptions C19_float_structure.
+Print Assumptions C19_float_structure_all.
+Print Assumptions C19_float_literals.
